@@ -185,9 +185,10 @@ fn enum_large(tier: Tier, f: &mut dyn FnMut(SeqCase) -> bool) {
     // LCS tables: 600 x 600 and (thorough) 1100 x 1000 cells
     cases.push(SeqCase::full(2, lcg_seq(4, 600, 40), lcg_seq(5, 600, 40)));
     cases.push(SeqCase::full(2, lcg_seq(6, 520, 3), lcg_seq(7, 515, 3)));
+    cases.push(SeqCase::full(2, lcg_seq(8, 1100, 50), lcg_seq(9, 1000, 50)));
     if tier == Tier::Thorough {
-        cases.push(SeqCase::full(2, lcg_seq(8, 1100, 50), lcg_seq(9, 1000, 50)));
         cases.push(SeqCase::full(2, lcg_seq(10, 12, 5), lcg_seq(11, 110_000, 5)));
+        cases.push(SeqCase::full(2, lcg_seq(12, 2100, 60), lcg_seq(13, 2100, 60)));
     }
     for mut c in cases {
         c.mode = MODE_LARGE;
@@ -261,7 +262,7 @@ impl Prop for C01 {
             Stage {
                 name: "large",
                 kind: StageKind::Enumerate {
-                    scope: "fixed large cases: Myers/Patience with edit distance in the thousands (100 vs 2100 and 1600 vs 1600 distinct items, 3000 vs 2500 over 7 letters), 20000 near-identical items, LCS tables of 360 000 cells (thorough: 1.1 M cells and 12 x 110 000)".into(),
+                    scope: "fixed large cases: Myers/Patience with edit distance in the thousands (100 vs 2100 and 1600 vs 1600 distinct items, 3000 vs 2500 over 7 letters), 20000 near-identical items, LCS tables of 360 000 and 1.1 M cells (thorough: also 4.4 M cells and 12 x 110 000)".into(),
                     exhaustive: true,
                     gen: enum_large,
                 },
